@@ -36,7 +36,8 @@ def get_api(
 
     walkable_files = []
     package_paths = []
-    for file_path in root.glob(pattern="./**/*.py"):
+    # Sorted, so that the order in which the files are analysed does not depend on the file system
+    for file_path in sorted(root.glob(pattern="./**/*.py")):
         # Check if the current path is a test directory
         if not is_test_run and ("test" in file_path.parts or "tests" in file_path.parts or "docs" in file_path.parts):
             log_msg = f"Skipping test file in {file_path}"
